@@ -90,3 +90,11 @@ PROPS['C23'] = dict(
     technique='Coq proof (lower-bound invariant by mutual structural induction + the C22 balance equation) + differential run + independent balance-bound monitor',
     level_text='Unbounded theorem about Machine/Sem.v: no bounded non-world source ends below min(initial, −bound), the balance being initial + postings of the run. Tied to the real compiler/VM by the differential run; '
                'the monitor recomputes the bound from the implementation output only.')
+
+# C25 (claimed in 10-ledger.py): machine side added here -- theorem + tie through the real TxToScriptData, compiler and VM
+if 'C25' in PROPS:
+    PROPS['C25']['theorems'] = PROPS['C25']['theorems'] + ['C25_machine_script']
+    PROPS['C25']['ties'] = PROPS['C25']['ties'] + [dict(name='TIE-C nstx (TxToScriptData -> compiler -> VM)', vh='nstx', model='nstx', n=dict(quick=4000, thorough=200000), kinds=['C25'])]
+    PROPS['C25']['explanation'] = PROPS['C25']['explanation'] + (' Machine side (C25_machine_script, Machine/TxScript.v): Sem.run on the script TxToScriptData generates yields exactly the submitted postings iff '
+        'Core.feasible succeeds and insufficient funds otherwise, for any injective variable naming; tie nstx: 1-8 postings over 5 accounts incl. world x 4 assets (USD_X is not lexable as a literal: variables only), zero and >2^64 amounts, '
+        'negative balances, 20% force, through the REAL TxToScriptData + compiler + VM vs the extracted model; monitor: independent in-order walk.')
